@@ -340,8 +340,61 @@ def history_search(case):
             "sample": {"estimator": name, "spec": SPECS[name][si], "alphabet": [list(e) for e in events], "depth": depth, "states": stats["states"]}}
 
 
-def _iso_digests(name, si, seed, order):
+def _prelude(name, seed):
+    """Other objects live and work in the process first: every estimator class (other hyperparameters, other data shapes), other configurations
+    of the class under test, a decorated model, printed trees, the GEMINI registry and the data generators.  Nothing here touches the objects
+    whose results are compared afterwards."""
+    import contextlib
+    import io
+    rs = np.random.RandomState(seed + 900)
+    Xo = rs.normal(size=(9, 4))
+    with warnings.catch_warnings(), contextlib.redirect_stdout(io.StringIO()):
+        warnings.simplefilter("ignore")
+        for other in M.ESTIMATORS:
+            for kw in ({}, {"verbose": True}):
+                try:
+                    if other == "Kauri":
+                        mo = M.make(other, max_clusters=4, max_depth=2, **kw)
+                    else:
+                        mo = M.make(other, n_clusters=2, max_iter=2, learning_rate=0.3, random_state=seed + 7, **kw)
+                    mo.fit(Xo)
+                    mo.predict(Xo[:5])
+                    mo.score(Xo)
+                    if other in M.SPARSE:
+                        M.make(other, n_clusters=2, alpha=0.4, groups=[[0, 2], [1]], random_state=3).path(Xo, alpha_multiplier=3.0, min_features=1, max_patience=1)
+                    if other == "Kauri":
+                        from gemclus.tree import print_kauri_tree
+                        print_kauri_tree(mo, ["a", "b", "c", "d"])
+                    if other == "Douglas":
+                        mo.find_active_points(Xo)
+                except Exception:  # noqa
+                    pass
+        for si2 in range(len(SPECS[name])):
+            try:
+                m2, y2, _ = _build(name, dict(SPECS[name][si2], random_state=seed + 11), Xo[:, :2], seed + 3)
+                m2.fit(Xo[:, :2], y2)
+                m2.score(Xo[:, :2], y2)
+            except Exception:  # noqa
+                pass
+        try:
+            from gemclus import add_mlcl_constraint
+            from gemclus.data import celeux_one, draw_gmm, gstm
+            from gemclus.gemini._utils import _str_to_gemini
+            add_mlcl_constraint(M.make("LinearModel", batch_size=4), [(0, 1), (2, 5)], [(1, 3)], 2.0).fit(Xo)
+            for g in M.ALL_GEMINIS:
+                gg = _str_to_gemini(g)
+                gg(rs.dirichlet(np.ones(3), size=9), gg.compute_affinity(Xo), return_grad=True)
+            draw_gmm(5, np.zeros((2, 2)), np.stack([np.eye(2)] * 2), np.array([0.5, 0.5]), 0)
+            gstm(8, 2, 3, 0)
+            celeux_one(6, 2, 1.5, 0)
+        except Exception:  # noqa
+            pass
+
+
+def _iso_digests(name, si, seed, order, prelude=False):
     """Digests of fresh estimators fitted on same-shaped data sets in the given order (run in this process)."""
+    if prelude:
+        _prelude(name, seed)
     spec = dict(SPECS[name][si], random_state=seed)
     data = {"X1": seams.tiny_data(5, 2, seed + 70), "X3": seams.tiny_data(5, 2, seed + 72) * 2.0}
     out = {}
@@ -373,7 +426,7 @@ def isolation_case(case):
     import subprocess
     import sys
     name, si, seed = case
-    here = _iso_digests(name, si, seed, ["X1", "X3", "X1"])
+    here = _iso_digests(name, si, seed, ["X1", "X3", "X1"], prelude=True)
     code = ("import sys, json; sys.path.insert(0, %r); sys.path.insert(0, %r); import warnings; warnings.filterwarnings('ignore');"
             "from props import c12; print('ISO' + json.dumps(c12._iso_digests(%r, %d, %d, ['X3', 'X1'])))") % (
         os.environ.get("VERIF_REPO", "/repo"), os.path.dirname(os.path.dirname(os.path.abspath(__file__))), name, si, seed)
@@ -385,7 +438,7 @@ def isolation_case(case):
     v = []
     for k in sorted(there):
         if here.get(k) != there[k]:
-            v.append(violation("result_depends_on_process_history", {"what": k, "this_process_order": ["X1", "X3", "X1"], "fresh_interpreter_order": ["X3", "X1"]},
+            v.append(violation("result_depends_on_process_history", {"what": k, "this_process": "other objects of all 18 classes / other configurations / decorated model / printed trees / GEMINIs / data generators used first, then X1, X3, X1", "fresh_interpreter_order": ["X3", "X1"]},
                                estimator=name, spec=str(SPECS[name][si]), what=k.split(":")[0]))
     return {"v": v[:3], "nt": [case], "stats": {"evals": 2, "states": 2, "transitions": 5, "traces": 2},
             "sample": {"estimator": name, "spec": SPECS[name][si], "compared": sorted(there)}}
@@ -405,6 +458,7 @@ def explorers(tier, seed):
                      bound=f"history depth {depth} before the final fit/path (total {depth + 1} calls)"),
             Explorer("process_isolation", "props.c12", "isolation_case", [(name, si, seed) for name in M.ESTIMATORS for si in range(len(SPECS[name]))],
                      kind="bfs", chunk=1, floor=10, determinism_probe=1,
-                     rule="fits / paths / scores of two same-shaped data sets done in order (X1, X3, X1) in the worker and in order (X3, X1) in a fresh "
-                          "interpreter must give identical models: catches state shared through module-level globals, which a differential inside one "
-                          "process cannot see")]
+                     rule="fits / paths / scores of two same-shaped data sets done in the worker AFTER other objects have worked there (all 18 classes with other "
+                          "hyperparameters and verbose mode, other configurations of the class, a decorated model, printed trees, every GEMINI, the data "
+                          "generators) in order (X1, X3, X1), and in order (X3, X1) in a fresh interpreter, must give identical models: catches state shared "
+                          "between objects through class attributes, mutable defaults and module-level globals, which a differential inside one process cannot see")]
